@@ -59,6 +59,8 @@ type Step struct {
 type Case struct {
 	Engine string `json:"engine"`
 	NInst  int    `json:"ninst"`
+	// FinalCode: the history ends with Runtime.Close (0) / Runtime.CloseWithExitCode(FinalCode)
+	FinalCode uint32 `json:"final_code,omitempty"`
 	// CloseOnDone runs the history with RuntimeConfig.WithCloseOnContextDone(true)
 	CloseOnDone bool   `json:"close_on_context_done,omitempty"`
 	Steps       []Step `json:"steps"`
@@ -726,9 +728,39 @@ func runCase(c *Case) (msg string, st runStats) {
 	} else if r, err := mod.ExportedFunction("run").Call(ctx, pack([]int{opPeek})); err != nil || len(r) != 1 || r[0] != 1 {
 		return fmt.Sprintf("after the history on %s: a new guest's first call gives (%v, %v), expected 1", c.Engine, r, err), st
 	}
+	// Finally the runtime is closed: whatever contained failures happened before, every instance
+	// that is still open is closed by it (the instances, the probe), with the code given; instances
+	// that exited before keep their code; calls return the exit error.
+	probe := w.rt.Module("probe")
+	if c.FinalCode == 0 {
+		w.rt.Close(ctx)
+	} else {
+		w.rt.CloseWithExitCode(ctx, c.FinalCode)
+	}
+	all := append([]api.Module{}, w.insts...)
+	want := []uint32{}
+	for i := range w.insts {
+		code := c.FinalCode
+		if m.insts[i].closed {
+			code = m.insts[i].code
+		}
+		want = append(want, code)
+	}
+	if probe != nil {
+		all, want = append(all, probe), append(want, c.FinalCode)
+	}
+	for i, mod := range all {
+		if !mod.IsClosed() {
+			return fmt.Sprintf("after the history on %s: Runtime.Close left instance %s open (IsClosed()=false)", c.Engine, mod.Name()), st
+		}
+		_, err := mod.ExportedFunction("run").Call(ctx, pack([]int{opLeaf}))
+		var ee *sys.ExitError
+		if !errors.As(err, &ee) || ee.ExitCode() != want[i] {
+			return fmt.Sprintf("after the history on %s: Runtime.Close(code %d): a call on instance %s gives %v, expected sys.ExitError with code %d", c.Engine, c.FinalCode, mod.Name(), err, want[i]), st
+		}
+	}
 	if st.recursions > 0 && c.Engine == "compiler" {
 		// the abandoned native stacks are large; give them back before the next history
-		w.rt.Close(ctx)
 		debug.FreeOSMemory()
 	}
 	return "", st
@@ -808,6 +840,7 @@ func genAtomic(t *rapid.T) []int {
 func genCase(t *rapid.T) *Case {
 	c := &Case{Engine: rapid.SampledFrom(wz.Engines).Draw(t, "engine"), NInst: rapid.IntRange(1, 3).Draw(t, "ninst")}
 	c.CloseOnDone = rapid.Bool().Draw(t, "close-on-context-done")
+	c.FinalCode = rapid.SampledFrom([]uint32{0, 0, 7, 0xfffffffe}).Draw(t, "final-code")
 	n := rapid.IntRange(5, 40).Draw(t, "nsteps")
 	// stack exhaustion costs 0.1-0.6 s under the compiler: at most 2 per history, and only in a
 	// share of the histories
